@@ -259,4 +259,26 @@ PROPS = {
              "shards": 10, "nontrivial": lambda ev: ev["ev"] in ("fixed", "pack", "lower")},
         ],
     },
+    "C20": {
+        "level": "model_checking",
+        "claim": "The double-checked Once initialisation is specified as a state machine with one action per critical section (Check1 = the "
+                 "unsynchronised fast-path read, EnterOnce, Construct, Publish, Complete, Check2, Return); TLC explores every interleaving of 3 "
+                 "threads x 2 keys x 2 calls (43k states): each key is constructed at most once, every return is a complete object, the same for "
+                 "a key, and every call terminates under fairness; the variants without Once / with a torn publication violate the invariants "
+                 "(non-vacuity). Real races: many fresh processes (the statics initialise once per process), 2..16 threads released by a barrier "
+                 "first-use several depths of both tables (Layer via nested::get_or_create, constants via largest_center_to_vertex_distance); "
+                 "inv / resp (harness) and construct (cfg-guarded hook in Layer::new and ConstantsC2V::new, with an optional busy-wait widening the "
+                 "window) are totally ordered under one mutex; each response carries the returned address and an immediate probe through the "
+                 "reference (n_hash, hash, centre, neighbours / distance) compared with single-threaded values. TLC must find an interleaving "
+                 "of the unlogged internal steps explaining every history (a second construction, two addresses, a failed probe or a panic has none).",
+        "rule": "one evaluation = one recorded event; one trace = the history of one process run; non-trivial = distinct histories",
+        "assumptions": ["TLC / SANY and the CommunityModules Json/IOUtils are correct",
+                        "the hook log's mutex gives a total order consistent with real time; the hook only adds a log entry and an optional delay at the top of the constructors",
+                        "publication of the slot is modelled as atomic (Torn = FALSE): whether the unsynchronised read can observe a partially written "
+                        "Option<Layer> is decided only by observation (the probes); the torn variant of the model violates NoTorn (MC_Lazy_torn.cfg)"],
+        "stages": [
+            {"kind": "mc", "module": "Lazy", "cfg": "MC_Lazy.cfg", "workers": 6},
+            {"kind": "race", "runs": {"quick": 80, "thorough": 1500}, "profiles": ["release", "debug"]},
+        ],
+    },
 }
